@@ -239,6 +239,7 @@ class Hub:
         self.n_instants = 0
         self.n_deliveries = 0
         self.hops_at: dict[int, set] = {}  # ns -> hop counts of offers delivered to a front
+        self.arrival = {a["id"]: a for a in case.get("arrivals", [])}
         self.reoffer_fronts: set = set()  # entities that legitimately deliver an id to themselves again (PooledCycleResource)
 
     def bind(self, entity, mon, role):
@@ -305,12 +306,14 @@ class QRMon:
         self.last_start_ns = None
         self.starts_this_instant = 0
         self.limit_at_last_pop = None
-        self.limit_seen_zero = False
+        self.limit_raised_since_pop = False
+        self.limit_drop_ns = None  # instant at which the limit last went down (window edge: ties are not judged)
         self.max_wait_with_limit2 = 0
         self.weighted = spec.get("model") == "weighted"
         self.varying = spec.get("model") == "dynamic" or self.kind == "shifted"
         self.hw = None
         self.overcommitted: set = set()
+        self.polled_while_full: set = set()
         self.over_reported = False
         self.rsink = None
         self.sched = None
@@ -469,11 +472,18 @@ class QRMon:
             # hand-off + this one exceed the limit
             act = self.f_active() if self.f_active else self._in_service()
             if act + self.n["POPPED"] + 1 > self.f_limit():
-                self.overcommitted.add(iid)
-                self.hub.res.count("overcommitted_dequeues")
+                # stale poll = some other hand-off was under way at this very instant (an item still in
+                # hand-off, or one that started at this instant after the poll was decided); a dequeue
+                # for a worker that has simply been full since an earlier instant is a different defect
+                if self.n["POPPED"] >= 1 or self.last_start_ns == t:
+                    self.overcommitted.add(iid)
+                    self.hub.res.count("overcommitted_dequeues")
+                else:
+                    self.polled_while_full.add(iid)
             self._set(iid, "POPPED", ("WAIT",), t, "popped")
             self.pop_order.append(iid)
             self.limit_at_last_pop = self.f_limit()
+            self.limit_raised_since_pop = False
 
     def on_delivery(self, role, ev, cont, t):
         iid = tag_of(ev)
@@ -495,8 +505,11 @@ class QRMon:
                     self.hub.res.count("rejected_after_dequeue")
                 elif c[6] > p[6]:
                     self._set(iid, "RENEGED", ("POPPED",), t, "reneged")
+                    self._check_patience(iid, t, True)
                 elif self._set(iid, "START", ("POPPED",), t, "started"):
                     self.start_ns[iid] = t
+                    if self.kind == "reneging":
+                        self._check_patience(iid, t, False)
                     self._check_start(iid, t, c)
                     if self.hw is not None and self.hw.last_immediate == iid:
                         self._set(iid, "FIN", ("START",), t, "finished")
@@ -515,6 +528,25 @@ class QRMon:
             if iid is not None and self.state.get(iid) != "RENEGED":
                 self.hub.add("ledger", self.cls, "reneged-event-without-count", f"id {iid} state {self.state.get(iid)}")
 
+    def _check_patience(self, iid, t, reneged):
+        """RenegingQueuedResource's own rule: an item reneges iff it waited longer than its patience."""
+        a = self.hub.arrival.get(iid)
+        if a is None or self.hub.case.get("topo", "single") != "single":
+            return
+        pat = a.get("patience")
+        if pat is None:
+            pat = self.spec.get("default_patience")
+        waited = t - ns(a["t"])
+        should = pat is not None and waited > ns(pat)
+        self.hub.res.count("patience_checks")
+        if should != reneged:
+            self.hub.add(
+                "ledger",
+                self.cls,
+                "reneged-within-patience" if reneged else "served-beyond-patience",
+                f"id {iid} waited {waited}ns with patience {pat} ticks and was {'reneged' if reneged else 'served'}",
+            )
+
     def _in_service(self) -> int:
         if self.weighted:
             return sum(self.weight.get(i, 1) for i, s in self.state.items() if s == "START")
@@ -531,13 +563,17 @@ class QRMon:
         self.hub.res.count("starts_checked")
         act = c[3]
         over = None
-        if act is not None and act > lim:
+        if self.limit_drop_ns == t:
+            pass  # the limit went down at this very instant: poll-vs-change order is a tie, not judged
+        elif act is not None and act > lim:
             over = act
         elif act is None and ins > lim:
             over = ins
         if over is not None:
             if iid in self.overcommitted:
                 shape = "dequeue-beyond-free-capacity-after-stale-poll"
+            elif iid in self.polled_while_full:
+                shape = "dequeued-for-a-worker-that-was-already-full"
             else:
                 shape = "same-instant-starts" if self.starts_this_instant > 1 else "start-while-full"
             self.over_reported = True
@@ -547,7 +583,7 @@ class QRMon:
             t_s = t / 1e9
             edge = any(abs(t_s - x) < 1e-12 for x in self.sched.transition_times())
             want = self.sched.capacity_at(t_s)
-            if not edge and ins > want:
+            if not edge and ins > want and over is None:
                 self.hub.add(
                     "over-admission",
                     self.cls,
@@ -560,10 +596,12 @@ class QRMon:
         c = self._counters()
         p = self.prev
         self.prev = c
-        if c[7] == 0:
-            self.limit_seen_zero = True
+        if c[7] > p[7]:
+            self.limit_raised_since_pop = True
+        elif c[7] < p[7]:
+            self.limit_drop_ns = t
         act, lim = c[3], c[7]
-        if act is not None and p[3] is not None and act > p[3] and act > lim and not self.over_reported:
+        if act is not None and p[3] is not None and act > p[3] and act > lim and not self.over_reported and self.limit_drop_ns != t:
             self.over_reported = True
             self.hub.add("over-admission", self.cls, "active-above-limit-after-delivery", f"active {act} > limit {lim} at t={t}ns", {"t_ns": t})
 
@@ -618,9 +656,7 @@ class QRMon:
                 if self.sched is not None and not free:
                     sched_free = ins < self.sched.capacity_at(t / 1e9)
                 if free or sched_free:
-                    raised = self.varying and (
-                        (self.limit_at_last_pop is not None and lim > self.limit_at_last_pop) or (self.limit_at_last_pop is None and self.limit_seen_zero)
-                    )
+                    raised = self.varying and self.limit_raised_since_pop
                     if sched_free:
                         shape, comp = "scheduled-capacity-free-but-current-capacity-stale", self.cls
                     elif raised:
@@ -835,6 +871,9 @@ class PooledMon(_CounterMon):
             hub.add("ledger", self.cls, "rejected-not-counted", f"ledger rejected={nR} counter={rej}", w)
         if nD != comp:
             hub.add("ledger", self.cls, "completed-counter-differs", f"ledger completed={nD} counter={comp}", w)
+        qcap = self.spec.get("qcap", 0)
+        if qcap > 0 and q > qcap:
+            hub.add("capacity", self.cls, "wait-queue-above-capacity", f"queued={q} queue_capacity={qcap}", w)
         if a > self.comp.pool_size or a + avail != self.comp.pool_size:
             hub.add("over-admission", self.cls, "units-not-conserved", f"active={a} available={avail} pool={self.comp.pool_size}", w)
         if q > 0:
@@ -1104,6 +1143,9 @@ class GateMon(_CounterMon):
             hub.add("ledger", self.cls, "rejected-not-counted", f"ledger rejected={self._count('REJ')} counter={rej}", w)
         if self._count("DONE") != passed:
             hub.add("ledger", self.cls, "completed-counter-differs", f"ledger passed={self._count('DONE')} passed_through={passed}", w)
+        qcap = self.spec.get("qcap", 0)
+        if qcap > 0 and depth > qcap:
+            hub.add("capacity", self.cls, "wait-queue-above-capacity", f"queue_depth={depth} queue_capacity={qcap}", w)
         if depth > 0:
             hub.res.count("conservation_checks")
             if is_open:
